@@ -31,6 +31,14 @@ Exo-Transmit files (spec/ExoTransmitFile.tla, MC_ExoTransmitFile.tla): the one c
       simulates files over 8; each is written in exactly that block order (table shape 2..4 pressures x 2..4 temperatures) and
       as a pickle of the physical table, both loaded through OpacityCache and compared: grids, table, opacity(T, P) at nodes and
       between, opacity(T, P, requested grid).
+Related molecule names (spec/CacheNames.tla, MC_CacheNames.tla; harness/fx_cachenames.py): three molecules whose NAMES are related by
+      "is a substring of" (H2 / H2O / H2O2, C / CO / CO2, O / O2 / CO2, O / O2 / O3, He-H / He-H2 / He-H2O ...) in one directory,
+      histories of Request(m) / SetPath(p) / Clear on the long-lived singleton.  Invariants NothingElseEnters,
+      ServedFromFirstRequestPath (ghost first[m] = path in force when m was first requested), OnlyTheRequestedChanges; the variant
+      "the request is matched as a substring filter" is refuted.  Every history of 4 (5) actions + simulated ones of 10 is replayed on
+      OpacityCache / KTableCache / CIACache under every permutation of every name family (rotating), the path set through the setter or
+      the GlobalCache key, p1 = pickle files, p2 = HDF5 / HITRAN files: result, served table and directory, identity, the complete
+      contents of opacity_dict / cia_dict after every step, file loads.
 """
 import os
 import random
@@ -46,6 +54,7 @@ from ..fixtures import GridOpacity, GridKTable
 from .. import fx_files as fx
 from .. import fx_exofile
 from .. import fx_hitranfile
+from .. import fx_cachenames
 
 REL = 1e-12
 MOL = {'A': 'H2O', 'B': 'CH4'}
@@ -989,6 +998,8 @@ def run(ctx):
     ctx.bounds = dict(tier=t, cache_model='2 paths (p1: both molecules as pickle; p2: molecule A only, HDF5 / HITRAN), 2 molecules, modes {linear, exp}, '
                                             'memory flag, user-added objects; exhaustive to depth %d' % (12 if q else 16),
                       histories='all histories of 4 actions (xsec sampled in quick; 5 actions for ktable/cia in thorough) + TLC-simulated histories of 12 actions, for OpacityCache, KTableCache, CIACache',
+                      related_names='CacheNames.tla: 3 molecules in a substring chain x 2 paths, Request / SetPath / Clear; every history of %d actions + TLC-simulated '
+                            'histories of 10; name families %r (xsec, k-tables) and %r (CIA), every permutation' % (4 if q else 5, fx_cachenames.FAMILIES['xsec'], fx_cachenames.FAMILIES['cia']),
                       formats='random 3x3x6 tables (k/64 units) in pickle(bar), HDF5(bar/Pa/atm/mbar; .h5/.hdf5; name as bytes/array/str), Exo-Transmit text; '
                               'k-table pickle + HDF5(bar/Pa/atm); CIA pickle vs HITRAN text with three wavenumber ranges given at different temperatures',
                       names='all names of length <= 4 over {H,C,e,o,1,2,-,_} + 9 documented patterns',
@@ -1038,6 +1049,14 @@ def run(ctx):
              # declared pressure units: container x prefixed unit x attribute storage (x pressure grid)
              ('export-units', 'MC_OpacityUnits', 'EX_OpacityUnits_%s.cfg' % t, dict(workers=1), None),
              ('nonvacuous-units', 'MC_OpacityUnits', 'MC_OpacityUnits_nonvac.cfg', dict(workers=1), 'AllBar')]
+    # molecule names of which one is a substring of another (spec/CacheNames.tla): Request / SetPath / Clear histories
+    jobs += [('names-design', 'MC_CacheNames', 'MC_CacheNames_design.cfg', dict(workers=1), None),
+             ('names-histories', 'MC_CacheNames', 'EX_CacheNames_%s.cfg' % t, dict(workers=1), None),
+             ('simulate-names', 'MC_CacheNames', 'SIM_CacheNames.cfg', dict(workers=1, simulate='num=%d' % (40 if q else 600), depth=11, seed=ctx.seed + 1), None),
+             ('refuted-names-substring-filter', 'MC_CacheNames', 'MC_CacheNames_substring_refuted.cfg', dict(workers=1), 'NothingElseEnters'),
+             ('refuted-names-substring-filter-stale', 'MC_CacheNames', 'MC_CacheNames_substring_stale_refuted.cfg', dict(workers=1), 'ServedFromFirstRequestPath'),
+             ('nonvacuous-names-stale-path', 'MC_CacheNames', 'MC_CacheNames_nonvac1.cfg', dict(workers=1), 'NeverStalePathServed'),
+             ('nonvacuous-names-sub-after-super', 'MC_CacheNames', 'MC_CacheNames_nonvac2.cfg', dict(workers=1), 'NeverSubAfterSuper')]
     if not q:
         jobs.append(('hitran-design-2x4', 'MC_HitranCia', 'MC_HitranCia_thorough.cfg', dict(workers=8), None))
     nsim = 120 if q else 1500
@@ -1133,6 +1152,28 @@ def run(ctx):
             n2 = run_histories(ctx, sb, k, ss, 'simulated-12', 0, rng)
             n3 = run_traces(ctx, sb, k, 40 if q else 400, 14, rng)
             nh[k] = (n1, n2, n3)
+        # ---- related molecule names: every Request / SetPath / Clear history of the specification under rotating name assignments
+        tn = _time.time()
+        nhs = [v['h'] for v in results['names-histories'].tagged('NHIST')]
+        seen_h = {repr(h) for h in nhs}
+        for v in results['simulate-names'].tagged('NHIST'):
+            if repr(v['h']) not in seen_h:
+                seen_h.add(repr(v['h']))
+                nhs.append(v['h'])
+        meta = results['names-histories'].tagged('SUBREL')
+        if len(nhs) < (1296 if q else 7776) or not meta:
+            raise Machinery('name-history export incomplete: %d histories' % len(nhs))
+        disk = {(p, m): int(tid) for p, m, tid in meta[0]['disk']}
+        # a history that never requests anything observes nothing
+        nhs = [h for h in nhs if any(e['act'] == 'Request' and e['res'] != 'error' for e in h)]
+        if len(nhs) > 3000:                          # thorough: a seeded sample of the 5-action histories (each contains its 4-action prefixes)
+            rng.shuffle(nhs)
+            nhs = nhs[:3000]
+        nn = {}
+        for k in ('xsec', 'ktable', 'cia'):
+            nn[k] = fx_cachenames.run(ctx, sb, k, nhs, meta[0]['rel'], disk, LoadCounter, 2 if k == 'xsec' else 1, rng, 'names-' + t)
+            ctx.traces += nn[k]
+        ctx.note('related molecule names (CacheNames.tla): %d histories, replays per cache %r, %.1f s' % (len(nhs), nn, _time.time() - tn))
     root_logger.setLevel(logging.ERROR)
     ctx.note('declared pressure units: %d containers loaded, %d unit spellings of the specification accepted by astropy (%s); HITRAN files as block sequences: '
              '%d (every arrangement of every subset of 2 bands x 3 temperatures) + %d (TLC-simulated, 3 bands x 4 temperatures, record layout per block) '
@@ -1151,7 +1192,14 @@ def replay(ctx, violations):
             kind = vec.get('kind')
             if kind == 'walk':
                 raise Machinery('random-walk violations are re-run with the same VERIF_SEED (./check C14 %s)' % ctx.tier)
-            if kind == 'history':
+            if kind == 'names-history':
+                names = tuple(fx_cachenames.FAMILIES[vec['cache']][vec['family']][j] for j in vec['perm'])
+                r0 = _run('MC_CacheNames', 'MC_CacheNames_design.cfg', workers=1)
+                disk = {(p, m): int(tid) for p, m, tid in r0.tagged('SUBREL')[0]['disk']}
+                real = fx_cachenames.NamedReal(vec['cache'], sb, names, disk, 'replay')
+                with LoadCounter() as counter:
+                    fx_cachenames.replay(ctx, real, vec['h'], counter, {k: v for k, v in vec.items() if k != 'h'})
+            elif kind == 'history':
                 real = Real(vec['cache'], sb)
                 with LoadCounter() as counter:
                     replay_history(ctx, real, vec['h'], counter, 'replay')
